@@ -251,15 +251,8 @@ class ScoreFormatter:
 
         self.text = '\n'.join(lines)
 
-        # If first bar idx != 1 transform it to m1
-        lines = self.text.split('\n')
-        for idx, line in enumerate(lines):
-            if self.is_bar(line):
-                if line.split(' ')[0] != 'm1':
-                    lines[idx] = 'm1' + line[2:]
-                break
-
-        self.text = '\n'.join(lines)
+        # Bar numbers are kept as written: the clock only uses differences of bar numbers,
+        # so the first bar may carry any number (m0 pickup bar, m1, m17 ...)
 
         for line in lines:
             line = line.lstrip('\t').lstrip(' ')
